@@ -178,6 +178,7 @@ def clone_stage(ctx):
         results = list(ex.map(c03.one_schema, jobs))
     fails, n, nshared, nlong = [], 0, 0, 0
     known_nested = []
+    tie_cases, tie_fail = [], []
     for res in results:
         if "error" in res:
             fails.append(("generated code unusable: " + res["error"][:600], res.get("fbs", ""), None)); continue
@@ -202,6 +203,20 @@ def clone_stage(ctx):
             elif cv != 0: fails.append(("the clone does not verify (%d)" % cv, res["fbs"], c))
             elif dump != c["expect"] and not c.get("known"): fails.append(("the clone reads differently from the source: %s" % dump[:600], res["fbs"], c))
             elif s0 > s1: fails.append(("the clone with a reference map (%d bytes) is larger than without (%d)" % (s0, s1), res["fbs"], c))
+            mm = re.search(r" cmap=(\d+)", l)
+            if mm and c.get("graph") and ok0:
+                g = c["graph"]
+                tie_cases.append((res["fbs"], c, int(mm.group(1)),
+                                  "clone 1 %d %s" % (c["root"], ";".join("%d:%s" % (a, ".".join(str(k) for k in ks)) for a, ks in sorted(g.items())))))
+    # tie of the clone model (Clone.lean, theorems Props/C18_Clone.lean): on the source's object graph (addresses from the independent decoder)
+    # the model creates exactly as many reference map entries as the generated clone left in the real map
+    if tie_cases:
+        rc, mout, _ = run_parallel(FMODEL, [t[3] for t in tie_cases], 8)
+        for (fbs, c, cmapn, line), mo in zip(tie_cases, mout):
+            mm = re.match(r"ok r=\d+ objs=(\d+) memo=(\d+)", mo)
+            if not mm or int(mm.group(2)) != cmapn or int(mm.group(1)) != cmapn:
+                tie_fail.append(("clone model and generated clone disagree on the reference map entries: model `%s`, implementation %d (source objects by address: %d)"
+                                 % (mo[:80], cmapn, len(c["graph"])), fbs, c, line))
     if known_nested:
         fbs, c, cv = known_nested[0]
         if any(f["id"] == "clone-nested-buffer-loses-alignment" and f["status"] == "known" for f in load_known()):
@@ -209,7 +224,9 @@ def clone_stage(ctx):
                           "[ubyte] vector with alignment 1, so its content loses the alignment it needs (%d cases this run)" % (cv, len(known_nested)))
         else:
             fails.append(("the clone does not verify (%d): nested buffer content misaligned in the clone" % cv, fbs, c))
-    return {"clone_cases": n, "clone_cases_with_shared_objects": nshared, "clone_cases_with_long_vectors": nlong, "clone_known_nested_alignment": len(known_nested)}, fails
+    return {"clone_cases": n, "clone_cases_with_shared_objects": nshared, "clone_cases_with_long_vectors": nlong, "clone_known_nested_alignment": len(known_nested),
+            "clone_model_tie_cases": len(tie_cases), "clone_model_tie_disagreements": len(tie_fail),
+            "clone_source_objects": sum(len(t[1]["graph"]) for t in tie_cases)}, fails, tie_fail
 
 
 def run(ctx):
@@ -233,7 +250,12 @@ def run(ctx):
                   {"kind": "correspondence-broken" if idx else "model-invariant-or-spec-broken",
                    "theorems_no_longer_tied": [t["name"] for t in ths], "op": lines[i][:20000], "c_output": a[i][:5000],
                    "model_output": b[i][:5000], "count": len(idx)}, no_failing_input=True)
-    cstats, cfails = clone_stage(ctx)
+    cstats, cfails, ctie = clone_stage(ctx)
+    if ctie and not cfails:
+        why, fbs, c, line = ctie[0]
+        violation(ctx, "clone_tie_%d.json" % ctx.seed, {"kind": "correspondence-broken", "why": why, "count": len(ctie), "model_line": line[:3000], "schema_fbs": fbs,
+                                                          "theorems_no_longer_tied": [t["name"] for t in ths if "clone" in t["name"]], "program_line": (c["line"] or "")[-1500:]},
+                  no_failing_input=True)
     if cfails:
         why, fbs, c = cfails[0]
         violation(ctx, "clone_%d.json" % ctx.seed, {"kind": "property-fails-on-implementation", "why": why, "count": len(cfails), "more": [f[0][:200] for f in cfails[1:6]],
@@ -250,7 +272,8 @@ def run(ctx):
         "sequences": len(lines), "traces_validated_against_impl": len(lines),
         "correspondence_disagreements": len(idx), "spec_oracle_failures": len(spec_fail)})
     ctx.samples = [{"op": lines[i][:200], "c": a[i][:200], "model": b[i][:200]} for i in (0, 1, len(lines) - 1)]
-    ctx.notes = ["proved: find/insert-new over the invariant for any hash and table size; NOT yet proved: update of an existing key, resize/rehash, "
-                 "reset and the lift to arbitrary operation sequences (checked per step by the executable invariant and the abstract-map spec in this run)",
-                 "clone/pick of generated code: not covered by a theorem"]
+    ctx.notes = ["reference map: refinement to the abstract map proved for every history (Props/C18.lean, Props/C13_Refmap.lean)",
+                 "clone/pick: Props/C18_Clone.lean proves content (bisimilarity), sharing (one object per distinct source address) and termination over the "
+                 "recursion scheme of the generated clone (Clone.lean); the scheme is tied by the number of reference map entries on every cloned case and by "
+                 "dump equality / verification of the real clone; byte layout of the clone is not modelled"]
     finish(ctx, ths)
